@@ -44,6 +44,8 @@ CFG = DC.Config("C02", D.ALL_KINDS, make_cmds, components=[gen_hashdict, gen_xbw
                      "IDs 0, n+1, n+2, 2n+1, 2^32-1, 2^32, 2^32+1, 2^64-1. Each query runs in its own forked ASan process with the "
                      "pattern in an exact-size heap buffer. Non-trivial = a query command; distinct by (kind, params, S, command).")
 
+CFG.probe = True   # regenerated obligations on the probe arithmetic widths + large nearly-full tables
+
 
 def check(run, tier, seed, replay):
     run.assumptions = ["ASan verdict of every query is part of the observation (supporting evidence, not the claim)"]
